@@ -162,3 +162,41 @@ def snapshot_source(ctx: Ctx, fl: Flush, attr: str = "set_messages"):
 
 def reads_buffer(e: ast.AST, attr: str) -> bool:
     return any(isinstance(x, ast.Attribute) and x.attr == attr for x in ast.walk(e))
+
+
+def none_propagation(ctx: Ctx, chk, rule: str) -> None:
+    """With message_buffer=False, Gateway.send hands None to the outgoing handler and no parking branch is taken."""
+    from ..cfg import CFG as _CFG
+    from ..interp import Const, Frame, UNKNOWN
+
+    I = ctx.I
+    send = ctx.func("aiomysensors.gateway.Gateway.send")
+    for V in ctx.versions:
+        fr = Frame(I.make_callee(send, send.cls), V).bind("message_buffer", frozenset([Const(False)]))
+        calls = [n for n in ctx.own_nodes(send) if isinstance(n, ast.Call) and isinstance(n.func, ast.Name) and n.func.id == "message_handler"]
+        if len(calls) != 1:
+            raise AnalysisError("handler call in Gateway.send not found")
+        c = calls[0]
+        chk.instance(rule)
+        vals = I.eval(c.args[2], fr) if len(c.args) >= 3 else frozenset([UNKNOWN])
+        key = f"{send.fq}::buffer-argument"
+        if vals == frozenset([Const(None)]):
+            chk.ok(rule, f"{key}@{V}", "message_buffer=False -> the handler receives None", ctx.loc(send, c), sample=V == "1.4")
+        else:
+            chk.refute(rule, key, f"with message_buffer=False the outgoing handler receives {sorted(map(repr, vals))} instead of None: an unbuffered send to a sleeping node is parked (again) instead of written", ctx.loc(send, c), version=V)
+        for t in I.resolve_call(c, fr):
+            if t.kind != "repo" or t.frame is None:
+                continue
+            hf = t.frame.func
+            for attr in BUFFERS:
+                for st, _k, _v in store_sites(ctx, hf, attr):
+                    chk.instance(rule)
+                    g = _CFG(hf.node)
+                    snodes = g.nodes_of(_stmt(ctx, hf, st))
+                    tests = [x for x in g.nodes if x.kind == "test" and all(g.dominates(x, s) for s in snodes)]
+                    k = f"{hf.fq}::park-branch::{attr}"
+                    dead = any(I.truth(x.ast, t.frame) is False for x in tests)
+                    if dead:
+                        chk.ok(rule, f"{k}@{V}", "parking branch definitely not taken when the buffer argument is None", ctx.loc(hf, st), sample=V == "1.4")
+                    else:
+                        chk.refute(rule, k, f"{hf.qualname} can park in {attr} although the buffer argument is None (message_buffer=False)", ctx.loc(hf, st), version=V)
